@@ -2,6 +2,8 @@ SPECIFICATION Spec
 CONSTANTS
   WorkerCpus <- B_Workers
   WorkerGroup <- B_Groups
+  WorkerLife <- B_Life
+  MaxTicks = 0
   Menu <- B_Menu
   OpenJobs <- B_Open
   Classes <- B_Classes
